@@ -93,6 +93,7 @@ structure Voter where
   rawPc : Votes Nat := []
   prevPv : Votes Nat := []         -- the same for the previous round, as of the moment it was left
   prevPc : Votes Nat := []
+  hiRound : Nat := 0               -- GetHighestRoundAndSetID: the round of the latest finalisation (any set)
   hasPrev : Bool := false          -- the voter has left a round
   prevSet : Nat := 0               -- the authority set of that round
   deriving Repr
@@ -194,6 +195,15 @@ def okHandover (c : Cfg) (w : World) (v : Voter) (b : Nat) : Bool :=
 
 /-! ### steps -/
 
+/-- `checkRoundCompletable`: "a block was finalised in a higher round" — the code compares the round number of the
+    latest finalisation with the current round even when that finalisation belongs to the previous authority set -/
+def roundOver (v : Voter) : Bool := decide (v.round < v.hiRound)
+
+/-- the ephemeral services end and `initiateRound` starts the next round with empty vote maps -/
+def skipRound (v : Voter) : Voter :=
+  { v with round := v.round + 1, pv := [], pc := [], pve := [], pce := [], prevoted := false,
+           precommitted := false, rawPv := [], rawPc := [] }
+
 def showB (b : Nat) : String := s!"b{b}"
 
 def stepBest (c : Cfg) (w : World) (i b : Nat) : World :=
@@ -206,6 +216,7 @@ def stepPv (c : Cfg) (w : World) (i : Nat) : World :=
   let mem := members w v.set
   if !mem.contains i then { emit w "notauth" with msgs := w.msgs ++ [none] }
   else if v.prevoted then { emit w "skip" with msgs := w.msgs ++ [none] }
+  else if roundOver v then { emit (setV w i (skipRound v)) "done" with msgs := w.msgs ++ [none] }
   else
     let primary := mem.getD (v.round % mem.length) 0
     -- the primary stores its proposal (the best block, not capped) before determinePreVote reads it back
@@ -226,6 +237,7 @@ def stepPc (c : Cfg) (w : World) (i : Nat) : World :=
   let mem := members w v.set
   if !mem.contains i then { emit w "notauth" with msgs := w.msgs ++ [none] }
   else if !v.prevoted || v.precommitted then { emit w "skip" with msgs := w.msgs ++ [none] }
+  else if roundOver v then { emit (setV w i (skipRound v)) "done" with msgs := w.msgs ++ [none] }
   else
     let cands := sel c mem.length v.pv v.pve
     if cands.isEmpty then { emit w "wait" with msgs := w.msgs ++ [none] }
@@ -303,7 +315,8 @@ def stepFin (c : Cfg) (w : World) (i : Nat) : World :=
       let v' : Voter :=
         { set := if moves then v.set + 1 else v.set, round := if moves then 1 else v.round + 1,
           head := bfc, best := if anc c.ps bfc v.best then v.best else bfc,
-          fins := bfc :: v.fins, prevPv := v.rawPv, prevPc := v.rawPc, hasPrev := true, prevSet := v.set }
+          fins := bfc :: v.fins, prevPv := v.rawPv, prevPc := v.rawPc, hiRound := v.round, hasPrev := true,
+          prevSet := v.set }
       let o := s!"fin={showB bfc}"
       if superB c mem v.rawPc bfc then emit (setV w i v') o else emitViol (setV w i v') o false
 
